@@ -14,6 +14,8 @@ stdin : {"cases": [{"idx": [names], "cols": [[cname, [ints]], ...], "queries": [
                                      "steps": [[k, q]..]}  (all tables alive in this process, query q on table k)
 stdout: {"obs": [[{rows, names, indices, mask, chain}..]..], "ref": [[..]..], "fail": [[[msg..]..]..],
          "mobs"/"mref"/"mfail": the same per step of "multi",
+         "vobs"/"vref"/"vfail"/"vstored": value ranges of "vtable": {"idx", "vcols": [[name, dtype, values]],
+                                          "queries": [[lo, hi, col]]} (numbers, or "nan"/"inf"/"-inf"),
          "hobs": [[..]..], "href": [[..]..], "hfail": [[[msg..]..]..]}
 """
 import sys, json, re
@@ -334,6 +336,47 @@ def run_history(case):
     return obs, refs, fails
 
 
+def dec(x):
+    """numbers travel as JSON numbers, or the strings nan / inf / -inf"""
+    return float(x) if isinstance(x, str) else x
+
+
+def enc(x):
+    if isinstance(x, float) and x != x:
+        return "nan"
+    if isinstance(x, float) and x in (float("inf"), float("-inf")):
+        return "inf" if x > 0 else "-inf"
+    return x
+
+
+def run_vranges(case):
+    """value ranges lo:hi:'col' on columns of any dtype; reference: the rows whose
+    stored value v satisfies lo <= v <= hi (Python comparison of the stored
+    numbers: exact across int/float, false with NaN), in table order"""
+    v = case.get("vtable")
+    if not v:
+        return [], [], [], []
+    import warnings
+    names = list(v["idx"])
+    data = {"name": np.array(names, dtype=object) if names else np.array([], dtype=object)}
+    for cname, dt, vals in v["vcols"]:
+        vals = [dec(x) for x in vals]
+        data[cname] = np.array(vals, dtype=object) if dt == "object" else np.array(vals, dtype=np.dtype(dt))
+    data[POS] = np.arange(len(names), dtype=np.int64)
+    t = xd.Table(data, col_names=["name"] + [c for c, _, _ in v["vcols"]] + [POS], index="name")
+    stored = {c: [x.item() if hasattr(x, "item") else x for x in t._data[c]] for c, _, _ in v["vcols"]}
+    obs, refs, fails = [], [], []
+    for lo, hi, c in v["queries"]:
+        lo, hi = (None if lo is None else dec(lo)), (None if hi is None else dec(hi))
+        q = {"one": ["range", lo, hi, c]}
+        with warnings.catch_warnings():
+            warnings.simplefilter("ignore")
+            o = observe(t, q)
+        r = [i for i, x in enumerate(stored[c]) if (lo is None or lo <= x) and (hi is None or x <= hi)]
+        obs.append(o); refs.append(r); fails.append(judge(names, o, r, q))
+    return obs, refs, fails, {c: [enc(float(x)) if isinstance(x, float) else (int(x) if not isinstance(x, bool) else int(x)) for x in vs] for c, vs in stored.items()}
+
+
 def run_multi(case):
     """several tables alive in this process, each with its own regex_flags; the
     same selectors evaluated on them in the given interleaving"""
@@ -355,7 +398,7 @@ def run_multi(case):
 
 def main():
     inp = json.load(sys.stdin)
-    O, R, F, HO, HR, HF, MO, MR, MF = [], [], [], [], [], [], [], [], []
+    O, R, F, HO, HR, HF, MO, MR, MF, VO, VR, VF, VS = [], [], [], [], [], [], [], [], [], [], [], [], []
     for case in inp["cases"]:
         o, r, f = run_case(case)
         O.append(o); R.append(r); F.append(f)
@@ -363,7 +406,10 @@ def main():
         HO.append(ho); HR.append(hr); HF.append(hf)
         mo, mr, mf = run_multi(case)
         MO.append(mo); MR.append(mr); MF.append(mf)
-    json.dump({"obs": O, "ref": R, "fail": F, "hobs": HO, "href": HR, "hfail": HF, "mobs": MO, "mref": MR, "mfail": MF}, sys.stdout)
+        vo, vr, vf, vs = run_vranges(case)
+        VO.append(vo); VR.append(vr); VF.append(vf); VS.append(vs)
+    json.dump({"obs": O, "ref": R, "fail": F, "hobs": HO, "href": HR, "hfail": HF, "mobs": MO, "mref": MR, "mfail": MF,
+               "vobs": VO, "vref": VR, "vfail": VF, "vstored": VS}, sys.stdout)
 
 
 if __name__ == "__main__":
